@@ -9,7 +9,7 @@ Binding B: every built-in gas profile for every layer count 2..120 (clauses vali
 Settings:  spec/MC_ChemistrySettings.tla -- ONE long-lived chemistry, settings written through the public
            fitting parameters ('<gas>_<main gas>' ratios with up to four fill gases, every gas's own parameters)
            between evaluations; TLC exports write/eval behaviours with the exact mixture after every evaluation.
-Names:     spec/MC_MolMass.tla -- the formula read character by character; processes of chemistry objects whose gas
+Names:     spec/MC_MolMass.tla -- the formula read character by character (repeated elements ADD, round 5); processes of chemistry objects whose gas
            names coincide under a lossy key (harness/fx_chemdims.py).
 Power law: spec/MC_PowerLaw.tla -- which control values are supplied / tabulated, by which route (fx_chemdims.py).
 Round 4:   spec/EX_Chemistry_over_*.cfg -- a SINGLE gas requested at / above one (one layer, both, next to another gas), handed
@@ -17,6 +17,10 @@ Round 4:   spec/EX_Chemistry_over_*.cfg -- a SINGLE gas requested at / above one
            reports) decide the verdict (Chemistry.tla!Seen, wrong design "clip_traces").  Every scalar route to the mean
            molecular weight (`mu`, the derived-parameter registry) against the weights of the surface layer
            (Chemistry.tla!MuScalarWeights, invariant ScalarMuAtSurface, wrong designs "mu_layer_mean" / "mu_top_layer").
+Round 5:   spec/MC_ChemistryEdge.tla -- BY HOW MUCH the trace total differs from one: numbers a + e*eps (eps below every
+           lattice step, instantiated as 2^-17 .. 2^-52), the rejection boundary is exact (wrong designs "forgive_close",
+           "strict_ge"); formulae that name an element more than once in the pool of MC_MolMass.tla (wrong readers
+           "lastcount" / "firstcount").
 Binding C: spec/Functional.tla walks (harness/history.py, harness/fx_chemhistory.py): one long-lived gas of every
            built-in profile type / one TaurexChemistry re-initialised after a change of a fitting parameter, the
            layer count, the pressure grid, the temperature profile; every evaluation must equal a fresh object's.
@@ -205,12 +209,15 @@ def run_mix_vector(ctx, v, rng=None):
     cls = 'nf%d:nt%d:%s' % (nf, len(x), bnd)
     reps = v.get('reps')
     if reps is None and rng is not None:
-        log_ok = all(t != 1 for t in totals)      # 10**log10(v) may be one ulp off: keep exact-one totals in the linear classes
+        # 10**log10(v) may be one ulp off: keep exact-one totals (and totals within a few ulps of one) in the linear classes
+        log_ok = all(t != 1 for t in totals) and 'edge' not in v
         reps = [rng.choice(row_reps(row, log_ok)) for row in x]
     if reps is not None:
         single = any(c > 1 for row in x for c in row)
         cls += ':%s:%s' % ('single>1' if single else 'each<=1', '+'.join(sorted(set(reps))) or 'none')
         v = dict(v, reps=reps)
+    if 'edge' in v:      # round 5: BY HOW MUCH the total differs from one (spec/MC_ChemistryEdge.tla)
+        cls += ':edge=%s:eps=2^-%d' % (v['edge'], v['K'])
     vec = dict(v, kind='mix')
     kw = dict(fill_gases=FILLS[:nf])
     if nf == 2:
@@ -283,6 +290,57 @@ def run_mix_vector(ctx, v, rng=None):
             good = good and prof.shape[0] > k and np.array_equal(prof[k], row) and \
                 np.array_equal(np.asarray(chem.get_gas_mix_profile(nm)), row)
     ok('active_split_profiles', good, 'active/inactive mix profiles are not the rows of mixProfile')
+
+
+EDGE_EXPONENTS = [17, 20, 24, 27, 30, 34, 37, 40, 44, 47, 50, 52]     # eps = 2^-K: 7.6e-6 .. one unit in the last place of 1.0
+
+
+def edge_vector(ev, K):
+    """An exported  a + e*eps  mixture (spec/MC_ChemistryEdge.tla) at eps = 2^-K as an ordinary exact mixture vector.  Every
+    requested abundance must be a double (so that what the spec decides about is what the implementation is handed); the
+    partial sums of the layer totals are multiples of 2^-K below 2, i.e. exact in double arithmetic for K <= 52."""
+    eps = Fraction(1, 2 ** K)
+    pair = lambda a, e: [[frac(p) + frac(q) * eps for p, q in zip(ra, re_)] for ra, re_ in zip(a, e)]
+    x = pair(ev['xa'], ev['xe'])
+    for row in x:
+        for c in row:
+            if Fraction(float(c)) != c:
+                raise Machinery('edge abundance %s is not a double at K=%d' % (c, K))
+    as_json = lambda rows: [[[c.numerator, c.denominator] for c in row] for row in rows]
+    mix = pair(ev['ma'], ev['me']) if not ev['invalid'] else []
+    return dict(nl=ev['nl'], ratios=ev['ratios'], x=as_json(x), invalid=ev['invalid'], mix=as_json(mix),
+                muw=[r[0] for r in as_json(mix)], gases=ev['gases'], avail=[], active=[], inactive=ev['gases'],
+                single=False, edge=ev['edge'], K=K)
+
+
+def run_edge(ctx):
+    """round 5: BY HOW MUCH the trace total differs from one -- totals on the lattice 1 + e * 2^-K (e a small integer of either
+    sign or zero, in one layer or in all) must be rejected iff e > 0, exactly like larger excesses."""
+    q = ctx.tier == 'quick'
+    if not q:
+        ctx.expect_refuted('refute-forgive-close', 'MC_ChemistryEdge', 'RF_ChemistryEdge_forgive_close.cfg', 'NonNegative', workers=1)
+        ctx.expect_refuted('refute-edge-strict-ge', 'MC_ChemistryEdge', 'RF_ChemistryEdge_strict_ge.cfg', 'InvalidIffExceedsOne', workers=1)
+    res = ctx.check_spec('export-mixtures-total-next-to-one', 'MC_ChemistryEdge', 'EX_ChemistryEdge_%s.cfg' % ctx.tier, workers=1)
+    wit = {(w['variant'], w['edge']) for w in res.tagged('WITNESS')}
+    need = {('forgive_close', 'above-in-one-layer'), ('forgive_close', 'above-in-all-layers'), ('strict_ge', 'exactly-one')}
+    if not need <= wit:
+        raise Machinery('InvalidIffExceedsOne is vacuous next to one: no refuting input for %r' % sorted(need - wit))
+    ev = res.tagged('EVEC')
+    classes = {'above-in-one-layer', 'above-in-all-layers', 'exactly-one', 'just-below'}
+    if len(ev) < 2500 or {v['edge'] for v in ev} != classes:
+        raise Machinery('only %d edge vectors exported / an edge class is missing' % len(ev))
+    rng = random.Random(ctx.seed * 86028121 + 5)
+    per = 160 if q else 600
+    picked = []
+    for c in sorted(classes):
+        vs = [v for v in ev if v['edge'] == c]
+        picked += rng.sample(vs, min(per, len(vs)))
+    vecs = []
+    for v in picked:
+        for K in rng.sample(EDGE_EXPONENTS, 2 if q else 3):
+            vecs.append(edge_vector(v, K))
+    run_mix_vectors(ctx, vecs, rng)
+    ctx.note('mixtures whose trace total is 1 + e*2^-K (e in -1..1 per gas, K in 17..52; in one layer or all) replayed: %d' % len(vecs))
 
 
 def run_mix_vectors(ctx, vecs, rng=None):
@@ -422,16 +480,17 @@ def run_dimensions(ctx):
     # expected counterexamples: quick -- TLC prints, in the export run, reachable processes in which a design keyed by each
     # lossy key hands out another species' mass (WITNESS); thorough -- additionally one refutation run per wrong design
     if not q:
-        for variant in ('casefold', 'anagram', 'nodigits', 'prefix2'):
+        for variant in ('casefold', 'anagram', 'nodigits', 'prefix2', 'lastcount', 'firstcount'):
             ctx.expect_refuted('refute-memo-' + variant, 'MC_MolMass', 'RF_MolMass_%s.cfg' % variant, 'AnswerIsOfAskedFormula', workers=1)
     res = ctx.check_spec('export-names', 'MC_MolMass', 'EX_MolMass_%s.cfg' % ctx.tier, workers=1)
     wit = {w['variant'] for w in res.tagged('WITNESS')}
-    if wit != {'casefold', 'anagram', 'nodigits', 'prefix2'}:
-        raise Machinery('AnswerIsOfAskedFormula is vacuous: TLC found a refuting process only for the memo keys %r' % sorted(wit))
+    if wit != {'casefold', 'anagram', 'nodigits', 'prefix2', 'lastcount', 'firstcount'}:
+        raise Machinery('AnswerIsOfAskedFormula is vacuous: TLC found a refuting process only for the memo keys / wrong readers %r' % sorted(wit))
     mv = dedupe(res.tagged('MVEC'))
     if len(mv) < 50 or not any(len(v['objs']) > 1 and 'casefold' in v['keys'] for v in mv) or \
             not any(len(v['objs']) == 1 and len(v['objs'][0]['names']) == 2 for v in mv) or \
-            {k for v in mv for k in v['keys']} != {'casefold', 'anagram', 'nodigits', 'prefix2'}:
+            {k for v in mv for k in v['keys']} != {'casefold', 'anagram', 'nodigits', 'prefix2', 'repeated-element'} or \
+            not any(len(v['objs']) > 1 and v['keys'] == ['repeated-element'] for v in mv):
         raise Machinery('only %d name behaviours exported / a class of colliding names is missing' % len(mv))
     clear_available()
     n = fxd.run_names_vectors(ctx, mv, [indep_mass('H2'), indep_mass('He')])
@@ -892,8 +951,9 @@ def run(ctx):
                       exhaustive_profiles='layer counts 2..%d on the decade grid, smoothing windows 0..300%%, constant/two-point/two-layer/array' % (8 if q else 14),
                       layer_counts='binding B: every n in 2..30%s' % (' + 24 seeded counts of 31..120' if q else ' and 31..120'),
                       settings='2..4 fill gases (1..3 ratio parameters), 0..2 trace gases, <=%d writes through the fitting parameters with evaluations in between' % (2 if q else 3),
-                      names='processes of <=%d chemistry objects over 23 formulae that coincide pairwise under case folding / anagram / dropped counts / 2-character prefix' % (2 if q else 3),
+                      names='processes of <=%d chemistry objects over 27 formulae that coincide pairwise under case folding / anagram / dropped counts / 2-character prefix or name an element more than once' % (2 if q else 3),
                       powerlaw='every subset of the four control values supplied (2 values each, both sides of the table), known / unknown species, <=%d later writes by fitting parameter / item / property, evaluations in between' % (1 if q else 2),
+                      edge='trace totals 1 + e*2^-K, e in -2..2 (per-gas parts in -1..1), K in 17..52, on the lattice k/8, in one layer or both, 1-%d fill gases' % (2 if q else 3),
                       histories='Functional.tla walks (depth 9, 3 settings x 3 values) over 17 gas scenarios and 7 chemistry scenarios')
     ctx.assumptions = ['element weight table (taurex.util.util.mass) is input data; parsing, summation and weighting are re-done independently',
                        'float 10**k and log10 are exact to 1e-12 on the integer decade grid',
@@ -950,6 +1010,7 @@ def run(ctx):
         raise Machinery('only %d single-gas vectors exported / no vector in which one gas alone carries the excess / none at exactly one' % len(ov))
     run_mix_vectors(ctx, ov, random.Random(ctx.seed * 32452843 + 4))
     ctx.note('mixture vectors with a single gas requested at or above one (every profile class) replayed: %d' % len(ov))
+    run_edge(ctx)
     res = ctx.check_spec('export-settings', 'MC_ChemistrySettings', 'EX_ChemistrySettings_%s.cfg' % ctx.tier, workers=1,
                          need_actions=('WriteRatio', 'WriteTrace', 'Eval'))
     sv = res.tagged('SVEC')
